@@ -381,8 +381,9 @@ def run_sharded(exe, base_args, ncases, on_line, on_death, seed, timeout_per_cas
                 d = d1
                 if d1[0] == 'hang':
                     hangs[0] += 1
-            deaths[0] += 1
-            on_death(cur, d, [exe] + list(base_args) + ['--seed', str(seed), '--from', str(cur), '--to', str(cur + 1)])
+            benign = on_death(cur, d, [exe] + list(base_args) + ['--seed', str(seed), '--from', str(cur), '--to', str(cur + 1)])
+            if not benign:          # on_death returns True for deaths it does not judge (allocation limit, a call stopped by the harness's own alarm)
+                deaths[0] += 1
             a = cur + 1
 
     with ThreadPoolExecutor(max_workers=shards) as ex:
